@@ -536,7 +536,7 @@ func runC19(c *Ctx) {
 	n := c.Pick(2*len(c19Shapes), 8000)
 	c.Parallel(n, 8, func(i int) { c19RunName(c, i) })
 	c.Parallel(c.Pick(6, 300), 6, func(i int) { c19Expiry(c, i) })
-	c.Parallel(c.Pick(22, 660), 6, func(i int) { c19ForgedTwin(c, i) })
+	c.Parallel(c.Pick(24, 720), 6, func(i int) { c19ForgedTwin(c, i) })
 	c19DNSQueries.Lock()
 	r.Obs("dns_stub_queries", c19DNSQueries.n)
 	c19DNSQueries.Unlock()
@@ -627,8 +627,9 @@ func c19ForgedTwin(c *Ctx, idx int) {
 	genuine := tls.Certificate{Certificate: [][]byte{gder}, PrivateKey: gkey}
 	rootSubj := pki.root.cert.Subject
 	type forgery struct {
-		name  string
-		chain tls.Certificate
+		name    string
+		chain   tls.Certificate
+		genuine *tls.Certificate // the genuine server of this case, when it is not the plain leaf under the root
 	}
 	mk := func(name string, spec c19LeafSpec, extra ...[]byte) forgery {
 		spec.serial = serial
@@ -637,7 +638,7 @@ func c19ForgedTwin(c *Ctx, idx int) {
 		spec.cn = "node"
 		spec.notBefore, spec.notAfter = now.Add(-time.Hour), now.Add(24*time.Hour)
 		der, key := c19Leaf(spec)
-		return forgery{name, tls.Certificate{Certificate: append([][]byte{der}, extra...), PrivateKey: key}}
+		return forgery{name: name, chain: tls.Certificate{Certificate: append([][]byte{der}, extra...), PrivateKey: key}}
 	}
 	forgeries := []forgery{
 		mk("other-ca-same-issuer-name", c19LeafSpec{dnsNames: []string{host}, signer: pki.otherSame}),
@@ -652,6 +653,15 @@ func c19ForgedTwin(c *Ctx, idx int) {
 		mk("unrelated-ca+its-ca+genuine-certificate-appended", c19LeafSpec{dnsNames: []string{host}, signer: pki.other}, pki.other.der, gder),
 		mk("ca-of-another-bundle-loaded-in-this-process", c19LeafSpec{dnsNames: []string{host}, signer: pki2.root}),
 		mk("ca-of-another-bundle-loaded-in-this-process+its-ca", c19LeafSpec{dnsNames: []string{host}, signer: pki2.root}, pki2.root.der),
+	}
+	// a server whose leaf hangs under an intermediate of the bundle CA but which does not present that intermediate does not
+	// verify - whatever chains other servers presented through the same endpoint before (here: a genuine one with the
+	// intermediate in its list)
+	{
+		lder, lkey := c19Leaf(c19LeafSpec{dnsNames: []string{host}, cn: "node-b", notBefore: now.Add(-time.Hour), notAfter: now.Add(24 * time.Hour), signer: pki.inter})
+		gder2, gkey2 := c19Leaf(c19LeafSpec{dnsNames: []string{host}, cn: "node-a", notBefore: now.Add(-time.Hour), notAfter: now.Add(24 * time.Hour), signer: pki.inter})
+		forgeries = append(forgeries, forgery{name: "leaf-under-intermediate-presented-without-it", chain: tls.Certificate{Certificate: [][]byte{lder}, PrivateKey: lkey},
+			genuine: &tls.Certificate{Certificate: [][]byte{gder2, pki.inter.der}, PrivateKey: gkey2}})
 	}
 	dial := func(ep proxycore.Endpoint, ver uint16, chain tls.Certificate) (bool, error, []*c19ConnObs, bool) {
 		sc := &c19ServerCase{version: ver, chain: chain}
@@ -668,6 +678,9 @@ func c19ForgedTwin(c *Ctx, idx int) {
 		return cerr == nil, cerr, sc.snapshot(), ok
 	}
 	fg := forgeries[idx%len(forgeries)]
+	if fg.genuine != nil {
+		genuine = *fg.genuine
+	}
 	judge := func(stage string, tgName string, acc bool, cerr error, obs []*c19ConnObs, ok bool) {
 		r.Eval(1)
 		app := 0
